@@ -1,10 +1,12 @@
 import H2V.Driver.Core
 import H2V.Driver.Codec
+import H2V.Driver.Wire
 open H2V H2V.Driver
 
 structure AllState where
   core : DState := {}
   codec : CState := {}
+  wire : H2V.Spec.Wire.WSt := {}
 
 def stepLine (st : AllState) (line : String) : AllState × String :=
   let ws := (line.trimAscii.toString.splitOn " ").filter (· ≠ "")
@@ -13,7 +15,10 @@ def stepLine (st : AllState) (line : String) : AllState × String :=
   | none =>
     match handleCodec st.codec ws with
     | some (c, out) => ({ st with codec := c }, out)
-    | none => (st, "bad-op")
+    | none =>
+      match handleWire st.wire ws with
+      | some (w, out) => ({ st with wire := w }, out)
+      | none => (st, "bad-op")
 
 partial def loop (hin : IO.FS.Stream) (hout : IO.FS.Stream) (st : AllState) : IO Unit := do
   let line ← hin.getLine
